@@ -47,8 +47,11 @@ pub struct ConcCase {
 pub enum Out {
     Got { hid: u32, snap: Snap },
     Err(String),
+    /// `e == u64::MAX`: the drop had started but not returned when the run was cut short
     Dropped { hid: u32 },
     Nop,
+    /// the call had started but not returned when the run was cut short (panic / abort)
+    InFlight,
 }
 
 #[derive(Clone, Debug, Serialize, Deserialize)]
@@ -133,10 +136,10 @@ static NOISE_HOOKS: a::Hooks = a::Hooks { pre: noise_pre, load: noise_load, post
 pub fn install_noise_hooks() {
     unsafe { a::set_hooks(&NOISE_HOOKS) };
 }
-fn noise_on(seed: u64) {
+pub fn noise_on(seed: u64) {
     NOISE.with(|n| n.set(seed | 1));
 }
-fn noise_off() {
+pub fn noise_off() {
     NOISE.with(|n| n.set(0));
 }
 
@@ -238,31 +241,48 @@ fn spin(n: u64) {
 // ---------------------------------------------------------------------------------------------
 // one participant (a thread of the check, or the child process)
 
-pub fn participant<S: Service + 'static>(ctrl: &Ctrl, me: usize, config: &Config, name: &str, case: &ConcCase) -> Result<Vec<Rec>, String> {
-    let r = std::panic::catch_unwind(std::panic::AssertUnwindSafe(|| participant_inner::<S>(ctrl, me, config, name, case)));
+/// what a participant observed, plus why it stopped early (if it did)
+pub type Outcome = (Vec<Rec>, Option<String>);
+
+pub fn participant<S: Service + 'static>(ctrl: &Ctrl, me: usize, config: &Config, name: &str, case: &ConcCase) -> Outcome {
+    let recs = std::cell::RefCell::new(vec![]);
+    let r = std::panic::catch_unwind(std::panic::AssertUnwindSafe(|| participant_inner::<S>(ctrl, me, config, name, case, &recs)));
     noise_off();
-    match r {
-        Ok(Ok(v)) => Ok(v),
+    let err = match r {
+        Ok(Ok(())) => None,
         Ok(Err(e)) => {
             ctrl.abort();
-            Err(e)
+            Some(e)
         }
         Err(p) => {
             ctrl.abort();
-            Err(format!("panic: {}", vcore::util::panic_message(&p)))
+            Some(format!("panic: {}", vcore::util::panic_message(&p)))
         }
-    }
+    };
+    (recs.into_inner(), err)
 }
 
-fn participant_inner<S: Service + 'static>(ctrl: &Ctrl, me: usize, config: &Config, name: &str, case: &ConcCase) -> Result<Vec<Rec>, String> {
+fn participant_inner<S: Service + 'static>(ctrl: &Ctrl, me: usize, config: &Config, name: &str, case: &ConcCase, recs: &std::cell::RefCell<Vec<Rec>>) -> Result<(), String> {
     let n_all = case.programs.len() as u64 + 1;
     let sname = service_name(name);
     let node = NodeBuilder::new().config(config).create::<S>().map_err(|e| format!("node creation failed: {e:?}"))?;
     let program = &case.programs[me];
     let keep = case.keep.get(me).copied().unwrap_or(false);
-    let mut recs = vec![];
     let mut next_hid = 0u32;
     let t = me as u8;
+    // a record is written when the call starts (e = MAX) and completed when it returned, so that a
+    // run that is cut short still shows what was in flight
+    let begin = |rep: u16, op: COp, out: Out| {
+        let b = ctrl.stamp();
+        recs.borrow_mut().push(Rec { t, rep, op, b, e: u64::MAX, out });
+    };
+    let end = |out: Out| {
+        let e = ctrl.stamp();
+        let mut r = recs.borrow_mut();
+        let last = r.last_mut().expect("begin before end");
+        last.e = e;
+        last.out = out;
+    };
     for rep in 0..case.reps {
         let mut rng = SplitMix(mix(mix(case.seed, rep as u64 + 1), me as u64 + 1));
         let mut held: Vec<(u32, Box<dyn Handle>)> = vec![];
@@ -271,15 +291,16 @@ fn participant_inner<S: Service + 'static>(ctrl: &Ctrl, me: usize, config: &Conf
         noise_on(rng.next());
         for op in program {
             spin(rng.below(4_000));
-            let b = ctrl.stamp();
-            let out = match op {
+            match op {
                 COp::Drop => {
                     if held.is_empty() {
-                        Out::Nop
+                        begin(rep, *op, Out::Nop);
+                        end(Out::Nop);
                     } else {
                         let (hid, h) = held.remove(0);
+                        begin(rep, *op, Out::Dropped { hid });
                         drop(h);
-                        Out::Dropped { hid }
+                        end(Out::Dropped { hid });
                     }
                 }
                 _ => {
@@ -289,51 +310,56 @@ fn participant_inner<S: Service + 'static>(ctrl: &Ctrl, me: usize, config: &Conf
                         _ if case.pattern == Pattern::Blackboard => (Verb::Open, open_spec(case.pattern)),
                         _ => (Verb::OpenOrCreate, ooc_spec(case.pattern)),
                     };
+                    begin(rep, *op, Out::InFlight);
                     match apply(&node, &sname, verb, &spec) {
                         Ok(h) => {
                             let hid = next_hid;
                             next_hid += 1;
                             let snap = h.snap();
+                            end(Out::Got { hid, snap });
                             held.push((hid, h));
-                            Out::Got { hid, snap }
                         }
-                        Err(e) => Out::Err(e),
+                        Err(e) => end(Out::Err(e)),
                     }
                 }
             };
-            let e = ctrl.stamp();
-            recs.push(Rec { t, rep, op: *op, b, e, out });
         }
-        let mut drop_all = |held: &mut Vec<(u32, Box<dyn Handle>)>, recs: &mut Vec<Rec>| {
+        let drop_all = |held: &mut Vec<(u32, Box<dyn Handle>)>| {
             while !held.is_empty() {
-                let b = ctrl.stamp();
                 let (hid, h) = held.remove(0);
+                begin(rep, COp::Drop, Out::Dropped { hid });
                 drop(h);
-                let e = ctrl.stamp();
-                recs.push(Rec { t, rep, op: COp::Drop, b, e, out: Out::Dropped { hid } });
+                end(Out::Dropped { hid });
             }
         };
         if !keep {
-            drop_all(&mut held, &mut recs);
+            drop_all(&mut held);
         }
         noise_off();
         ctrl.slot(SLOT_SURVIVORS + me).store(held.len() as u64, Ordering::SeqCst);
         ctrl.barrier(n_all)?; // programs done
         ctrl.barrier(n_all)?; // controller looked at the quiescent state
         noise_on(rng.next());
-        drop_all(&mut held, &mut recs);
+        drop_all(&mut held);
         noise_off();
         ctrl.barrier(n_all)?; // everything dropped
     }
     drop(node);
-    Ok(recs)
+    Ok(())
 }
 
 // ---------------------------------------------------------------------------------------------
 // controller (the check's thread)
 
-fn quiescent<S: Service>(config: &Config, name: &str, p: Pattern, want: bool, what: &str) -> Result<(), Failure> {
+fn quiescent<S: Service>(dom: &Domain, name: &str, p: Pattern, want: bool, what: &str) -> Result<(), Failure> {
+    let config = &dom.config;
     let sname = service_name(name);
+    if !want {
+        // ipc: the static config file is gone, too
+        let dir = dom.root.join("services");
+        let files: Vec<String> = std::fs::read_dir(dir).map(|rd| rd.flatten().map(|e| e.file_name().to_string_lossy().to_string()).filter(|n| n.ends_with(".service")).collect()).unwrap_or_default();
+        ensure!(files.is_empty(), "conc.service_outlives_users", "{what}: static config files remain: {files:?}");
+    }
     let got = does_exist::<S>(config, &sname, p).map_err(|e| Failure::new("conc.does_exist_error", format!("{what}: does_exist failed with {e}")))?;
     ensure!(got == want, if want { "conc.service_vanished_with_users" } else { "conc.service_outlives_users" }, "{what}: does_exist = {got}");
     let listed = list::<S>(config).map_err(|e| Failure::new("conc.list_error", format!("{what}: {e}")))?;
@@ -342,22 +368,23 @@ fn quiescent<S: Service>(config: &Config, name: &str, p: Pattern, want: bool, wh
     Ok(())
 }
 
-fn controller<S: Service>(ctrl: &Ctrl, config: &Config, name: &str, case: &ConcCase) -> Result<(), Failure> {
+/// Err((repetition, failure))
+fn controller<S: Service>(ctrl: &Ctrl, dom: &Domain, name: &str, case: &ConcCase) -> Result<(), (u16, Failure)> {
     let n = case.programs.len();
     let n_all = n as u64 + 1;
-    let mut first: Option<Failure> = None;
-    let bar = |ctrl: &Ctrl| ctrl.barrier(n_all).map_err(|e| Failure::new(if e.starts_with("hang") { "conc.hang" } else { "conc.aborted" }, e));
+    let mut first: Option<(u16, Failure)> = None;
+    let bar = |ctrl: &Ctrl, rep: u16| ctrl.barrier(n_all).map_err(|e| (rep, Failure::new(if e.starts_with("hang") { "conc.hang" } else { "conc.aborted" }, e)));
     for rep in 0..case.reps {
-        bar(ctrl)?;
-        bar(ctrl)?;
+        bar(ctrl, rep)?;
+        bar(ctrl, rep)?;
         let survivors: u64 = (0..n).map(|i| ctrl.slot(SLOT_SURVIVORS + i).load(Ordering::SeqCst)).sum();
         if first.is_none() {
-            first = quiescent::<S>(config, name, case.pattern, survivors > 0, &format!("repetition {rep}, all programs finished, {survivors} handles are still held")).err();
+            first = quiescent::<S>(dom, name, case.pattern, survivors > 0, &format!("repetition {rep}, all programs finished, {survivors} handles are still held")).err().map(|f| (rep, f));
         }
-        bar(ctrl)?;
-        bar(ctrl)?;
+        bar(ctrl, rep)?;
+        bar(ctrl, rep)?;
         if first.is_none() {
-            first = quiescent::<S>(config, name, case.pattern, false, &format!("repetition {rep}, every handle dropped")).err();
+            first = quiescent::<S>(dom, name, case.pattern, false, &format!("repetition {rep}, every handle dropped")).err().map(|f| (rep, f));
         }
     }
     match first {
@@ -393,28 +420,50 @@ fn reference<S: Service + 'static>(config: &Config, case: &ConcCase) -> Result<V
     Ok(v)
 }
 
-pub fn run(case: &ConcCase, obs: &mut Obs) -> Result<(), Failure> {
-    if case.ipc || case.procs { run_on::<iceoryx2::service::ipc::Service>(case, obs) } else { run_on::<iceoryx2::service::local::Service>(case, obs) }
+/// `known(signature)`: is this an open known finding? Those are collected (returned in `Ok`) and
+/// the remaining invariants are still checked.
+pub type Known<'a> = &'a dyn Fn(&str) -> bool;
+
+pub fn run(case: &ConcCase, obs: &mut Obs, known: Known) -> Result<Vec<Failure>, Failure> {
+    if case.ipc || case.procs { run_on::<iceoryx2::service::ipc::Service>(case, obs, known) } else { run_on::<iceoryx2::service::local::Service>(case, obs, known) }
 }
 
-fn run_on<S: Service + 'static>(case: &ConcCase, obs: &mut Obs) -> Result<(), Failure> {
+fn run_on<S: Service + 'static>(case: &ConcCase, obs: &mut Obs, known: Known) -> Result<Vec<Failure>, Failure> {
     checks_ice::silence_iceoryx_log();
     let mut dom = Domain::new();
     dom.config.global.creation_timeout = Duration::from_millis(case.timeout_ms as u64);
-    let r = run_in::<S>(&dom, case, obs);
+    let mut exposed = false;
+    let r = run_in::<S>(&dom, case, obs, known, &mut exposed);
     let left = if r.is_ok() { dom.leftovers() } else { vec![] };
     dom.cleanup();
-    r?;
-    ensure!(left.is_empty(), "conc.leftover", "after all participants dropped everything these remain: {left:?}");
-    Ok(())
+    let mut tolerated = r?;
+    if !left.is_empty() {
+        let f = Failure::new("conc.leftover", format!("after all participants dropped everything these remain: {left:?}"));
+        let f = if exposed { reclassify(f, "some repetition") } else { f };
+        if known(&f.signature) {
+            tolerated.push(f);
+        } else {
+            return Err(f);
+        }
+    }
+    Ok(tolerated)
 }
 
-fn run_in<S: Service + 'static>(dom: &Domain, case: &ConcCase, obs: &mut Obs) -> Result<(), Failure> {
+pub const DOUBLE_DESTRUCTION: &str = "conc.double_destruction.concurrent_last_deregistrations";
+
+/// A failure observed in a repetition in which two participants deregistered their nodes from
+/// the same service at the same time is attributed to the known defect that both then consider
+/// themselves the last owner and both remove the service (see known_findings.jsonl).
+fn reclassify(f: Failure, what: &str) -> Failure {
+    Failure::new(DOUBLE_DESTRUCTION, format!("[{}] {} — {what} contains two concurrent last deregistrations from one service, after which both participants destroy it and the slower one can remove the static config of a service created in between", f.signature, f.message))
+}
+
+fn run_in<S: Service + 'static>(dom: &Domain, case: &ConcCase, obs: &mut Obs, known: Known, any_exposed: &mut bool) -> Result<Vec<Failure>, Failure> {
     let name = "c06/conc/service";
     let n = case.programs.len();
     ensure!((2..=4).contains(&n) && case.keep.len() == n, "harness.case", "malformed case");
     let refs = reference::<S>(&dom.config, case)?;
-    let (ctl, recs): (Result<(), Failure>, Vec<Result<Vec<Rec>, String>>) = if case.procs {
+    let (ctl, outcomes): (Result<(), (u16, Failure)>, Vec<Outcome>) = if case.procs {
         run_processes(dom, name, case)?
     } else {
         let ctrl = Ctrl::on_heap();
@@ -426,26 +475,100 @@ fn run_in<S: Service + 'static>(dom: &Domain, case: &ConcCase, obs: &mut Obs) ->
                     s.spawn(move || participant::<S>(ctrl, i, config, name, case))
                 })
                 .collect();
-            let c = controller::<S>(&ctrl, &dom.config, name, case);
+            let c = controller::<S>(&ctrl, dom, name, case);
             if c.is_err() {
                 ctrl.abort();
             }
-            (c, hs.into_iter().map(|h| h.join().unwrap_or_else(|_| Err("participant thread panicked outside the guarded region".into()))).collect())
+            (c, hs.into_iter().map(|h| h.join().unwrap_or_else(|_| (vec![], Some("panic: participant thread panicked outside the guarded region".into())))).collect())
         })
     };
-    // a participant that panicked or failed explains an aborted controller: report it first
     let mut all = vec![];
-    for (i, r) in recs.into_iter().enumerate() {
-        match r {
-            Ok(v) => all.extend(v),
-            Err(e) if e == "aborted" => {}
-            Err(e) if e.starts_with("panic") => fail!("conc.panic", "participant {i}: {e}"),
-            Err(e) if e.starts_with("hang") => fail!("conc.hang", "participant {i}: {e}"),
-            Err(e) => fail!("conc.participant_failed", "participant {i}: {e}"),
+    let mut stopped: Vec<(usize, String, u16)> = vec![];
+    for (i, (recs, err)) in outcomes.into_iter().enumerate() {
+        if let Some(e) = err {
+            stopped.push((i, e, recs.last().map(|r| r.rep).unwrap_or(0)));
+        }
+        all.extend(recs);
+    }
+    let exposed: Vec<u16> = (0..case.reps).filter(|rep| exposed_to_double_destruction(&all, *rep).is_some()).collect();
+    *any_exposed = !exposed.is_empty();
+    if *any_exposed {
+        obs.class("conc/concurrent_last_deregistrations");
+    }
+    let classify = |rep: u16, f: Failure| if exposed.contains(&rep) { reclassify(f, &format!("repetition {rep}")) } else { f };
+    let mut tolerated = vec![];
+    let mut file = |f: Failure, tolerated: &mut Vec<Failure>| -> Result<(), Failure> {
+        if known(&f.signature) {
+            tolerated.push(f);
+            Ok(())
+        } else {
+            Err(f)
+        }
+    };
+    // a participant that panicked or failed explains an aborted controller: report it first
+    let mut cut_short = false;
+    for (i, e, rep) in &stopped {
+        if e == "aborted" {
+            cut_short = true;
+            continue;
+        }
+        cut_short = true;
+        let sig = if e.starts_with("panic") {
+            "conc.panic"
+        } else if e.starts_with("hang") {
+            "conc.hang"
+        } else {
+            "conc.participant_failed"
+        };
+        file(classify(*rep, Failure::new(sig, format!("participant {i}, repetition {rep}: {e}"))), &mut tolerated)?;
+    }
+    if let Err((rep, f)) = ctl {
+        cut_short = true;
+        if f.signature != "conc.aborted" || tolerated.is_empty() {
+            file(classify(rep, f), &mut tolerated)?;
         }
     }
-    ctl?;
-    check_records(case, name, &all, &refs, obs)
+    tolerated.extend(check_records(case, name, &all, &refs, obs, known, &exposed, cut_short)?);
+    Ok(tolerated)
+}
+
+/// Two participants whose nodes left the same service (their last handle of it was dropped) in
+/// overlapping drop calls: Some(description).
+fn exposed_to_double_destruction(recs: &[Rec], rep: u16) -> Option<String> {
+    struct D {
+        t: u8,
+        uid: String,
+        b: u64,
+        e: u64,
+    }
+    let rs: Vec<&Rec> = recs.iter().filter(|r| r.rep == rep).collect();
+    // (participant, hid) -> (uid, stamp the handle was obtained, stamp its drop began)
+    let mut hs: Vec<(u8, u32, &str, u64, u64, u64)> = vec![];
+    for r in &rs {
+        if let Out::Got { hid, snap } = &r.out {
+            let d = rs.iter().find(|d| d.t == r.t && matches!(&d.out, Out::Dropped { hid: x } if x == hid));
+            hs.push((r.t, *hid, snap.uid.as_str(), r.b, d.map(|d| d.b).unwrap_or(u64::MAX), d.map(|d| d.e).unwrap_or(u64::MAX)));
+        }
+    }
+    // drops after which the participant holds no other handle of that service: the node deregisters
+    let mut ds: Vec<D> = vec![];
+    for (t, hid, uid, _, db, de) in &hs {
+        if *db == u64::MAX {
+            continue;
+        }
+        let other_alive = hs.iter().any(|(t2, hid2, uid2, got2, db2, _)| t2 == t && hid2 != hid && uid2 == uid && got2 < db && db2 > db);
+        if !other_alive {
+            ds.push(D { t: *t, uid: uid.to_string(), b: *db, e: *de });
+        }
+    }
+    for (i, x) in ds.iter().enumerate() {
+        for y in &ds[i + 1..] {
+            if x.t != y.t && x.uid == y.uid && x.b.max(y.b) < x.e.min(y.e) {
+                return Some(format!("participants {} and {} left service {} in overlapping drops [{}..{}] / [{}..{}]", x.t, y.t, x.uid, x.b, x.e, y.b, y.e));
+            }
+        }
+    }
+    None
 }
 
 // ---------------------------------------------------------------------------------------------
@@ -453,7 +576,7 @@ fn run_in<S: Service + 'static>(dom: &Domain, case: &ConcCase, obs: &mut Obs) ->
 
 static CTRL_FILES: AtomicU64 = AtomicU64::new(0);
 
-fn run_processes(dom: &Domain, name: &str, case: &ConcCase) -> Result<(Result<(), Failure>, Vec<Result<Vec<Rec>, String>>), Failure> {
+fn run_processes(dom: &Domain, name: &str, case: &ConcCase) -> Result<(Result<(), (u16, Failure)>, Vec<Outcome>), Failure> {
     use std::io::Read;
     use std::process::{Command, Stdio};
     let path = vcore::util::run_dir().join(format!("c06-ctrl-{}", CTRL_FILES.fetch_add(1, Ordering::Relaxed)));
@@ -488,11 +611,11 @@ fn run_processes(dom: &Domain, name: &str, case: &ConcCase) -> Result<(Result<()
             }
         }
     }
-    let ctl = controller::<iceoryx2::service::ipc::Service>(&ctrl, &dom.config, name, case);
+    let ctl = controller::<iceoryx2::service::ipc::Service>(&ctrl, dom, name, case);
     if ctl.is_err() {
         ctrl.abort();
     }
-    let hung = matches!(&ctl, Err(f) if f.signature == "conc.hang");
+    let hung = matches!(&ctl, Err((_, f)) if f.signature == "conc.hang");
     let mut outs = vec![];
     for (i, mut c) in children.into_iter().enumerate() {
         if hung {
@@ -518,10 +641,7 @@ fn run_processes(dom: &Domain, name: &str, case: &ConcCase) -> Result<(Result<()
         if err.is_none() && !s.lines().any(|l| l == "DONE") {
             err = Some(if hung { "hang: the child was killed after the hang limit".to_string() } else { format!("panic: child {i} ended without a result ({status:?})") });
         }
-        outs.push(match err {
-            Some(e) => Err(e),
-            None => Ok(recs),
-        });
+        outs.push((recs, err));
     }
     drop(ctrl);
     let _ = std::fs::remove_file(&path);
@@ -555,16 +675,17 @@ pub fn child_main(args: &[String]) -> i32 {
     install_noise_hooks();
     let mut dom = Domain::at(&args[3], std::path::Path::new(&args[2]));
     dom.config.global.creation_timeout = Duration::from_millis(case.timeout_ms as u64);
-    match participant::<iceoryx2::service::ipc::Service>(&ctrl, me, &dom.config, &args[4], &case) {
-        Ok(recs) => {
-            for r in recs {
-                println!("REC {}", serde_json::to_string(&r).unwrap());
-            }
+    let (recs, err) = participant::<iceoryx2::service::ipc::Service>(&ctrl, me, &dom.config, &args[4], &case);
+    for r in recs {
+        println!("REC {}", serde_json::to_string(&r).unwrap());
+    }
+    match err {
+        None => {
             println!("DONE");
             0
         }
-        Err(e) => {
-            println!("FAIL {e}");
+        Some(e) => {
+            println!("FAIL {}", e.replace('\n', " "));
             1
         }
     }
@@ -582,105 +703,135 @@ struct H<'a> {
     by: COp,
 }
 
-fn check_records(case: &ConcCase, name: &str, recs: &[Rec], refs: &[RefCfg], obs: &mut Obs) -> Result<(), Failure> {
+#[derive(Default)]
+struct Seen {
+    any_ok: bool,
+    any_err: bool,
+    overlapped: bool,
+}
+
+#[allow(clippy::too_many_arguments)]
+fn check_records(case: &ConcCase, name: &str, recs: &[Rec], refs: &[RefCfg], obs: &mut Obs, known: Known, exposed: &[u16], cut_short: bool) -> Result<Vec<Failure>, Failure> {
+    let mut tolerated: Vec<Failure> = vec![];
     let p = case.pattern;
-    let n = case.programs.len();
     obs.class(st(&format!("conc/{}/{}", p.name(), if case.procs { "processes" } else if case.ipc { "ipc threads" } else { "local threads" })));
-    let mut any_ok = false;
-    let mut any_err = false;
-    let mut overlapped = false;
+    let mut seen = Seen::default();
     for rep in 0..case.reps {
-        let rs: Vec<&Rec> = recs.iter().filter(|r| r.rep == rep).collect();
-        // handles
-        let mut hs: Vec<H> = vec![];
-        for r in &rs {
-            if let Out::Got { hid, snap } = &r.out {
-                let dropped = rs.iter().find(|d| d.t == r.t && matches!(&d.out, Out::Dropped { hid: x } if x == hid));
-                let Some(d) = dropped else { fail!("harness.records", "handle {hid} of participant {} was never dropped", r.t) };
-                hs.push(H { t: r.t, snap, alive_from: r.e, alive_to: d.b, by: r.op });
+        if let Err(f) = check_rep(case, name, recs, refs, obs, known, rep, cut_short, &mut seen, &mut tolerated) {
+            let f = if exposed.contains(&rep) { reclassify(f, &format!("repetition {rep}")) } else { f };
+            if known(&f.signature) {
+                tolerated.push(f);
+            } else {
+                return Err(f);
             }
-        }
-        let verb_of = |op: COp| match op {
-            COp::Create => Verb::Create,
-            COp::Open => Verb::Open,
-            _ if p == Pattern::Blackboard => Verb::Open,
-            _ => Verb::OpenOrCreate,
-        };
-        for r in &rs {
-            if r.op == COp::Drop {
-                continue;
-            }
-            let verb = verb_of(r.op);
-            // every call returns a service or an error documented for contention
-            match &r.out {
-                Out::Err(e) => {
-                    any_err = true;
-                    obs.class(st(&format!("conc/{}/{verb:?}/{e}", p.name())));
-                    if !contention_error_allowed(verb, e) {
-                        fail!(format!("conc.undocumented_error.{verb:?}.{e}"), "repetition {rep}: participant {} {verb:?} failed with {e}, which the documentation does not explain by contention", r.t);
-                    }
-                }
-                Out::Got { .. } => {
-                    any_ok = true;
-                    obs.class(st(&format!("conc/{}/{verb:?}/ok", p.name())));
-                }
-                _ => {}
-            }
-            if rs.iter().any(|o| o.t != r.t && o.op != COp::Drop && o.b.max(r.b) < o.e.min(r.e)) {
-                overlapped = true;
-            }
-            // calls that ran entirely while somebody held a handle
-            if let Some(h) = hs.iter().find(|h| h.alive_from < r.b && h.alive_to > r.e) {
-                match (&r.out, verb) {
-                    (Out::Got { .. }, Verb::Create) => fail!("conc.create_succeeded_on_live_service", "repetition {rep}: participant {} created the service while participant {} held a handle of it during the whole call", r.t, h.t),
-                    (Out::Err(e), Verb::Open | Verb::OpenOrCreate) => fail!("conc.open_failed_on_live_service", "repetition {rep}: participant {} {verb:?} failed with {e} while participant {} held a handle during the whole call", r.t, h.t),
-                    _ => {}
-                }
-            }
-        }
-        // every handle shows a complete configuration: the one of exactly one creator
-        let mut by_uid: BTreeMap<&str, Vec<&H>> = BTreeMap::new();
-        for h in &hs {
-            ensure!(h.snap.name == name, "conc.config_incomplete", "repetition {rep}: a handle of participant {} shows the service name {:?}", h.t, h.snap.name);
-            let rc = RefCfg { attrs: h.snap.attrs.clone(), cfg: h.snap.cfg.clone(), raw: h.snap.raw.clone() };
-            ensure!(refs.contains(&rc), "conc.config_incomplete", "repetition {rep}: a handle of participant {} shows a static config no creator asked for: {:?}", h.t, h.snap);
-            by_uid.entry(h.snap.uid.as_str()).or_default().push(h);
-        }
-        for (uid, group) in &by_uid {
-            let first = group[0];
-            for h in group {
-                ensure!(h.snap == first.snap, "conc.config_differs_between_handles", "repetition {rep}: two handles of service {uid} show different configs: {:?} / {:?}", first.snap, h.snap);
-            }
-            let creates: Vec<&&H> = group.iter().filter(|h| h.by == COp::Create).collect();
-            ensure!(creates.len() <= 1, "conc.two_creates_one_service", "repetition {rep}: {} create calls returned the same service {uid}", creates.len());
-            let marker = first.snap.attrs.iter().find(|(k, _)| *k == attr_key(MARKER_KEY)).map(|(_, v)| v.clone());
-            match marker {
-                Some(m) => {
-                    let t = (0..n as u8).find(|t| attr_val(*t) == m);
-                    ensure!(creates.len() == 1 && Some(creates[0].t) == t, "conc.service_without_creator", "repetition {rep}: service {uid} carries the settings of participant {t:?}'s create, but that create did not return it (creates returning it: {:?})", creates.iter().map(|h| h.t).collect::<Vec<_>>());
-                }
-                None => {
-                    ensure!(creates.is_empty(), "conc.creator_got_foreign_config", "repetition {rep}: a create call returned a service with the open_or_create settings");
-                    ensure!(group.iter().any(|h| h.by == COp::OpenOrCreate), "conc.service_without_creator", "repetition {rep}: service {uid} has the open_or_create settings but no open_or_create returned it");
-                }
-            }
-        }
-        // at most one service of the name is alive at any instant
-        for (i, g) in hs.iter().enumerate() {
-            for h in &hs[i + 1..] {
-                if g.snap.uid != h.snap.uid && g.alive_from.max(h.alive_from) < g.alive_to.min(h.alive_to) {
-                    fail!("conc.two_services_alive", "repetition {rep}: participants {} and {} held handles of two different services ({} by {:?}, {} by {:?}) of the same name at the same time", g.t, h.t, g.snap.uid, g.by, h.snap.uid, h.by);
-                }
-            }
-        }
-        if by_uid.len() > 1 {
-            obs.class("conc/recreated_within_repetition");
         }
     }
-    if overlapped {
+    if seen.overlapped {
         obs.class("conc/calls_overlapped");
     }
-    obs.nontrivial = overlapped && any_ok && any_err;
+    obs.nontrivial = seen.overlapped && seen.any_ok && seen.any_err;
+    Ok(tolerated)
+}
+
+#[allow(clippy::too_many_arguments)]
+fn check_rep(case: &ConcCase, name: &str, recs: &[Rec], refs: &[RefCfg], obs: &mut Obs, known: Known, rep: u16, cut_short: bool, seen: &mut Seen, tolerated: &mut Vec<Failure>) -> Result<(), Failure> {
+    let p = case.pattern;
+    let n = case.programs.len();
+    let rs: Vec<&Rec> = recs.iter().filter(|r| r.rep == rep).collect();
+    // handles
+    let mut hs: Vec<H> = vec![];
+    for r in &rs {
+        if let Out::Got { hid, snap } = &r.out {
+            let dropped = rs.iter().find(|d| d.t == r.t && matches!(&d.out, Out::Dropped { hid: x } if x == hid));
+            let alive_to = match dropped {
+                Some(d) => d.b,
+                None if cut_short => u64::MAX,
+                None => fail!("harness.records", "handle {hid} of participant {} was never dropped", r.t),
+            };
+            hs.push(H { t: r.t, snap, alive_from: r.e, alive_to, by: r.op });
+        }
+    }
+    let verb_of = |op: COp| match op {
+        COp::Create => Verb::Create,
+        COp::Open => Verb::Open,
+        _ if p == Pattern::Blackboard => Verb::Open,
+        _ => Verb::OpenOrCreate,
+    };
+    for r in &rs {
+        if r.op == COp::Drop {
+            continue;
+        }
+        let verb = verb_of(r.op);
+        // every call returns a service or an error documented for contention
+        match &r.out {
+            Out::Err(e) => {
+                seen.any_err = true;
+                obs.class(st(&format!("conc/{}/{verb:?}/{e}", p.name())));
+                if !contention_error_allowed(verb, e) {
+                    let f = Failure::new(format!("conc.undocumented_error.{}.{verb:?}.{e}", p.name()), format!("repetition {rep}: participant {} {verb:?} failed with {e}, which the documentation does not explain by contention", r.t));
+                    if known(&f.signature) {
+                        tolerated.push(f);
+                    } else {
+                        return Err(f);
+                    }
+                }
+            }
+            Out::Got { .. } => {
+                seen.any_ok = true;
+                obs.class(st(&format!("conc/{}/{verb:?}/ok", p.name())));
+            }
+            _ => {}
+        }
+        if rs.iter().any(|o| o.t != r.t && o.op != COp::Drop && o.b.max(r.b) < o.e.min(r.e)) {
+            seen.overlapped = true;
+        }
+        // calls that ran entirely while somebody held a handle
+        if let Some(h) = hs.iter().find(|h| h.alive_from < r.b && h.alive_to > r.e) {
+            match (&r.out, verb) {
+                (Out::Got { .. }, Verb::Create) => fail!("conc.create_succeeded_on_live_service", "repetition {rep}: participant {} created the service while participant {} held a handle of it during the whole call", r.t, h.t),
+                (Out::Err(e), Verb::Open | Verb::OpenOrCreate) if contention_error_allowed(verb, e) => fail!("conc.open_failed_on_live_service", "repetition {rep}: participant {} {verb:?} failed with {e} while participant {} held a handle during the whole call", r.t, h.t),
+                _ => {}
+            }
+        }
+    }
+    // every handle shows a complete configuration: the one of exactly one creator
+    let mut by_uid: BTreeMap<&str, Vec<&H>> = BTreeMap::new();
+    for h in &hs {
+        ensure!(h.snap.name == name, "conc.config_incomplete", "repetition {rep}: a handle of participant {} shows the service name {:?}", h.t, h.snap.name);
+        let rc = RefCfg { attrs: h.snap.attrs.clone(), cfg: h.snap.cfg.clone(), raw: h.snap.raw.clone() };
+        ensure!(refs.contains(&rc), "conc.config_incomplete", "repetition {rep}: a handle of participant {} shows a static config no creator asked for: {:?}", h.t, h.snap);
+        by_uid.entry(h.snap.uid.as_str()).or_default().push(h);
+    }
+    for (uid, group) in &by_uid {
+        let first = group[0];
+        for h in group {
+            ensure!(h.snap == first.snap, "conc.config_differs_between_handles", "repetition {rep}: two handles of service {uid} show different configs: {:?} / {:?}", first.snap, h.snap);
+        }
+        let creates: Vec<&&H> = group.iter().filter(|h| h.by == COp::Create).collect();
+        ensure!(creates.len() <= 1, "conc.two_creates_one_service", "repetition {rep}: {} create calls returned the same service {uid}", creates.len());
+        let marker = first.snap.attrs.iter().find(|(k, _)| *k == attr_key(MARKER_KEY)).map(|(_, v)| v.clone());
+        match marker {
+            Some(m) => {
+                let t = (0..n as u8).find(|t| attr_val(*t) == m);
+                ensure!(cut_short || (creates.len() == 1 && Some(creates[0].t) == t), "conc.service_without_creator", "repetition {rep}: service {uid} carries the settings of participant {t:?}'s create, but that create did not return it (creates returning it: {:?})", creates.iter().map(|h| h.t).collect::<Vec<_>>());
+            }
+            None => {
+                ensure!(creates.is_empty(), "conc.creator_got_foreign_config", "repetition {rep}: a create call returned a service with the open_or_create settings");
+                ensure!(cut_short || group.iter().any(|h| h.by == COp::OpenOrCreate), "conc.service_without_creator", "repetition {rep}: service {uid} has the open_or_create settings but no open_or_create returned it");
+            }
+        }
+    }
+    // at most one service of the name is alive at any instant
+    for (i, g) in hs.iter().enumerate() {
+        for h in &hs[i + 1..] {
+            if g.snap.uid != h.snap.uid && g.alive_from.max(h.alive_from) < g.alive_to.min(h.alive_to) {
+                fail!("conc.two_services_alive", "repetition {rep}: participants {} and {} held handles of two different services ({} by {:?}, {} by {:?}) of the same name at the same time", g.t, h.t, g.snap.uid, g.by, h.snap.uid, h.by);
+            }
+        }
+    }
+    if by_uid.len() > 1 {
+        obs.class("conc/recreated_within_repetition");
+    }
     Ok(())
 }
 
